@@ -460,6 +460,81 @@ fn router_layer(rep: &mut Report, tier: Tier) {
     });
 }
 
+/// Disk layer: documents that exist on disk with a content different from the editor's
+/// buffer (unsaved changes), in three layouts; didOpen then every valid single edit.
+fn disk_layer(rep: &mut Report, tier: Tier) {
+    let base = crate::core::verif_root().join(".scratch/c13");
+    let _ = std::fs::remove_dir_all(&base);
+    let layouts: Vec<(&str, Vec<(&str, &str)>, &str)> = vec![
+        ("free-standing", vec![("loose/doc.gleam", "pub fn on_disk() { 1 }\n")], "loose/doc.gleam"),
+        ("project-src", vec![("proj/gleam.toml", "name = \"proj\"\n"), ("proj/src/doc.gleam", "pub fn on_disk() { 1 }\n"), ("proj/src/other.gleam", "pub fn o() { 2 }\n")], "proj/src/doc.gleam"),
+        ("project-test-dir", vec![("proj2/gleam.toml", "name = \"proj2\"\n"), ("proj2/test/doc.gleam", "pub fn on_disk() { 1 }\n")], "proj2/test/doc.gleam"),
+    ];
+    let editor_texts = ["pub fn in_editor() { 2 }\n", "", "a\r\n😀", "pub fn on_disk() { 1 }\n"];
+    let reps = words_upto(C13_SYMS, tier.pick(1, 1));
+    let mut n = 0u64;
+    let mut states = 0u64;
+    for (lname, files, doc) in &layouts {
+        for (ti, et) in editor_texts.iter().enumerate() {
+            let root = base.join(format!("{lname}-{ti}"));
+            for (rel, content) in files {
+                let p = root.join(rel);
+                let _ = std::fs::create_dir_all(p.parent().unwrap());
+                let _ = std::fs::write(&p, content);
+            }
+            let uri = format!("file://{}", root.join(doc).display());
+            states += 1;
+            let mut srv = InProc::new();
+            let r0 = srv.open(&uri, et);
+            let got = srv.server_text(&uri);
+            n += 1;
+            let want = RefDoc::new(*et).without_cr();
+            let mut fail = |what: String, rep: &mut Report| {
+                rep.violation(Violation { class: "open-text-diverged".into(), key: format!("{lname}"), witness: json!({"layout": lname, "editor_text": et, "disk_text": files.iter().find(|f| f.0 == *doc).map(|f| f.1)}), detail: format!("layout {lname}: file on disk differs from the editor buffer; after didOpen {what}") });
+            };
+            match (&r0, &got) {
+                (Ok(_), Ok(Some(g))) if *g == want => {}
+                (a, b) => {
+                    fail(format!("the server analyses {b:?} (open: {a:?}) but the editor has {et:?}"), rep);
+                    continue;
+                }
+            }
+            // every valid single edit afterwards
+            let d = RefDoc::new(*et);
+            let pos = d.valid_positions();
+            let mut version = 1;
+            'edits: for (i, (ps, _)) in pos.iter().enumerate() {
+                for (pe, _) in pos.iter().skip(i) {
+                    for r in &reps {
+                        let act = Act::Edit { start: *ps, end: *pe, text: r.clone() };
+                        let Some(after) = ref_step(et, &act) else { continue };
+                        version += 1;
+                        let _ = srv.notify("textDocument/didChange", json!({"textDocument": {"uri": uri, "version": version}, "contentChanges": [{"text": et}]}));
+                        version += 1;
+                        let r1 = srv.notify("textDocument/didChange", json!({"textDocument": {"uri": uri, "version": version}, "contentChanges": [{"range": {"start": {"line": ps.0, "character": ps.1}, "end": {"line": pe.0, "character": pe.1}}, "text": r}]}));
+                        n += 1;
+                        let got = srv.server_text(&uri);
+                        let want = RefDoc::new(after.clone()).without_cr();
+                        if !matches!((&r1, &got), (Ok(_), Ok(Some(g))) if *g == want) {
+                            rep.violation(Violation { class: "router-text-diverged".into(), key: format!("disk|{lname}"), witness: json!({"layout": lname, "editor_text": et, "edit": act_json(&act)}), detail: format!("layout {lname}: after {act:?} the server has {got:?}, the editor {after:?}") });
+                            break 'edits;
+                        }
+                    }
+                }
+            }
+        }
+    }
+    rep.layer(Layer {
+        name: "disk-backed-documents".into(),
+        states,
+        transitions: n,
+        executions: n,
+        exhaustive: true,
+        bound: "3 project layouts (free-standing file, <pkg>/src, <pkg>/test; real directories) x 4 editor buffers differing from the file on disk x didOpen + every valid single edit with a <=1-symbol replacement".into(),
+        ..Default::default()
+    });
+}
+
 pub fn run_c13(tier: Tier) -> i32 {
     let mut rep = Report::new("C13", tier);
     let max_syms = tier.pick(4usize, 5usize);
@@ -485,6 +560,7 @@ pub fn run_c13(tier: Tier) -> i32 {
         ..Default::default()
     });
     router_layer(&mut rep, tier);
+    disk_layer(&mut rep, tier);
     rep.distinct_nontrivial = crlf.load(Ordering::Relaxed).min(unique);
     rep.distinct_nontrivial = unique.saturating_sub(pow(1, 1));
     rep.distinct_outcomes = 1 + rep.violations.iter().map(|v| v.class.clone()).collect::<std::collections::BTreeSet<_>>().len() as u64;
